@@ -1,9 +1,11 @@
-package modelgen
+// Package c20t: type agreement between the generator and the mapper (overlay-only harness package).
+package c20t
 
 // C20 (type agreement part): for every column type the generator's field type is the Go spelling of the type the
 // mapper expects (ovsdb.NativeType), with and without enum types.
 
 import (
+	"github.com/ovn-org/libovsdb/modelgen"
 	"github.com/ovn-org/libovsdb/ovsdb"
 	rt "github.com/ovn-org/libovsdb/verifrt"
 )
@@ -66,16 +68,17 @@ func VerifC20FieldType() {
 	col := c20Column()
 	want := ovsdb.NativeType(col).String()
 	rt.Reach("ran")
-	rt.Assert(fieldType("Tab", "col", col, true) == expectedWithEnums(col, want), "C20: the generated field type is the type the mapper expects, spelled with the enum alias (enum types on)")
-	rt.Assert(FieldType("Tab", "col", col) == want, "C20: the generated field type is the type the mapper expects (enum types off)")
+	rt.Assert(modelgen.FieldTypeWithEnums("Tab", "col", col) == expectedWithEnums(col, want), "C20: the generated field type is the type the mapper expects, spelled with the enum alias (enum types on)")
+	rt.Assert(modelgen.FieldType("Tab", "col", col) == want, "C20: the generated field type is the type the mapper expects (enum types off)")
 }
 
 // expectedWithEnums: with enum types on, the element type of an enum column is the generated enum type name.
 func expectedWithEnums(col *ovsdb.ColumnSchema, native string) string {
-	if FieldEnum("Tab", "col", col) == nil {
+	e := modelgen.FieldEnum("Tab", "col", col)
+	if e == nil {
 		return native
 	}
-	name := enumName("Tab", "col")
+	name := e.Alias
 	switch {
 	case len(native) > 2 && native[:2] == "[]":
 		return "[]" + name
